@@ -889,4 +889,17 @@ def alignedHashes : List (String × String) := [
   ("HRPrinter.walk_nary", "55f936f6539eb225"),
   ("HRPrinter.walk_quantifier", "7837c661d75231ae")]
 
+/-- the functional rules of the scanner (not modelled: token level) the model was written against -/
+def alignedFunctional : List (String × String) := [
+  ("(\\s+)", "skip"),
+  ("(-?\\d+/\\d+)", "real_constant"),
+  ("(-?\\d+\\.\\d+)", "real_constant"),
+  ("(-?\\d+_\\d+)", "bv_constant"),
+  ("(-?\\d+)", "int_constant"),
+  ("\\\"(.*?)\\\"", "string_constant"),
+  ("BV\\{(\\d+)\\}", "bv_type"),
+  ("'(.*?)'", "identifier"),
+  ("([A-Za-z_][A-Za-z0-9_]*)", "identifier"),
+  ("(.)", "lexing_error")]
+
 end PySMT.HR
